@@ -14,7 +14,7 @@ INFO = {
                    "linear rules (guards len < K -> Err, loop guards off+32 <= len, loop-counter invariants); an undischarged obligation is a "
                    "concrete crashing request shape. R13-2: on every path that can return Ok(true) the canonical re-encoding of the decoded public "
                    "values is compared with the source bytes input[128..288] (reducing decoders alone are not accepted). R13-3: the proof part "
-                   "is decoded with the validating deserialize_compressed (shared with C02).",
+                   "is decoded with the validating deserialize_compressed (shared with C02). R13-4 (shared with C11): the C entry points of verification and recovery return false and write nothing on Err, and write the verdict / the produced bytes exactly on Ok.",
     "not_decided": "panics inside third-party code (arkworks deserialisation and pairing, Keccak) are trusted not to occur: they return Err",
     "assumptions": ["Vec lengths are at most isize::MAX, so len + small constant does not overflow usize"],
 }
@@ -188,6 +188,22 @@ def run(ctx):
             if "recover" not in fn:
                 check_canonical(ctx, fb, cfg, fn)
     ctx.floor("verification-entry-points", n, 7)
+    # R13-4 (shared with C11 R11-1..R11-3): "rejected" must reach a C caller too: the C entry points of verification and recovery
+    # return false and write nothing when the method returns Err, and write the verdict (true or false) / the produced bytes
+    # exactly when it returns Ok - a flag or buffer left as it was reports a rejected input with the previous call's result
+    from . import c11
+    from ..main import Ctx as _Ctx4
+    k = 0
+    for cfg in cfgs[:2]:
+        fb = ctx.fb(cfg)
+        for w in c11.wrappers(fb):
+            if w["name"] in ("verify", "verify_rln_proof", "verify_with_roots", "recover_id_secret"):
+                sub4 = _Ctx4(ctx.pid, ctx.tier)
+                c11.check_wrapper(sub4, fb, w, cfg)
+                k += 1
+                for r in sub4.results:
+                    (ctx.ok if r.status == "ok" else ctx.fail)("R13-4", r.instance, r.reason, r.loc)
+    ctx.floor("verification-ffi-wrappers", k, 6)
     # fixtures
     fx = ctx.fb("fixtures")
     from ..main import Ctx
